@@ -41,6 +41,9 @@ size_t strlen(const char *s)
 	__CPROVER_assume(n <= 5 || s[5] != 0);
 	__CPROVER_assume(n <= 6 || s[6] != 0);
 	__CPROVER_assume(n <= 7 || s[7] != 0);
+	/* ... nor at offset 255 (libjwt's error buffers are 256 bytes and keep a NUL
+	 * in their last byte: strlen of such a buffer is at most 255) */
+	__CPROVER_assume(n <= 255 || s[255] != 0);
 	return n;
 }
 
@@ -63,6 +66,28 @@ int verif_snprintf(char *buf, size_t size, const char *fmt)
 	return r;
 }
 
+#ifdef VERIF_STRCPY_ERRBUF
+/* strcpy as used by jwt_copy_error(): both arguments are 256-byte error
+ * buffers whose last byte is NUL (checked).  The whole destination buffer is
+ * havocked (constant size -- a symbolic-size havoc of a struct member costs
+ * ~15M clauses in cbmc 6.11), the first byte, the terminator and the ghost
+ * index are then set exactly; bytes behind the terminator are left arbitrary
+ * (an over-approximation: nothing in libjwt reads them). */
+char *strcpy(char *dst, const char *src)
+{
+	__CPROVER_assert(dst != NULL && src != NULL, "strcpy: non-NULL arguments");
+	__CPROVER_assert(ROOM(src) >= 256 && src[255] == 0, "strcpy(errbuf): source is a terminated 256-byte error buffer");
+	__CPROVER_assert(ROOM(dst) >= 256, "strcpy(errbuf): destination is a 256-byte error buffer");
+	size_t n = strlen(src);	/* <= 255 */
+	char c0 = src[0];
+	__CPROVER_havoc_slice(dst, 256);
+	dst[255] = 0;
+	dst[0] = c0;
+	if (n > 0 && n < 255)
+		__CPROVER_assume(dst[n] == 0);
+	return dst;
+}
+#else
 char *strcpy(char *dst, const char *src)
 {
 	__CPROVER_assert(dst != NULL, "strcpy: non-NULL destination");
@@ -79,6 +104,7 @@ char *strcpy(char *dst, const char *src)
 	}
 	return dst;
 }
+#endif
 
 /* strcmp: the call whose FIRST argument is g_strcmp_watch is recorded in ghost
  * state (which strings were compared and what the answer was), so that
